@@ -31,7 +31,7 @@ impl<CS: CipherSuite> Envelope<CS> {
         mode: InnerEnvelopeMode,
     ) -> Result<SealRawResult<CS>, InternalError> {
         let rpwd = unsafe { crate::verif_kani::w_stubs::LAST_RPWD };
-        let mut buf = [0u8; 32];
+        let mut buf = [0u8; 48];
         let n = drain_aad(aad, &mut buf);
         let auth_key = sp::hkdf_expand8(&rpwd, &[&nonce, b"AuthKey"]);
         let export = sp::hkdf_expand8(&rpwd, &[&nonce, b"ExportKey"]);
@@ -46,7 +46,7 @@ impl<CS: CipherSuite> Envelope<CS> {
         aad: impl Iterator<Item = &'a [u8]>,
     ) -> Result<OpenedInnerEnvelope<CS>, InternalError> {
         let rpwd = unsafe { crate::verif_kani::w_stubs::LAST_RPWD };
-        let mut buf = [0u8; 32];
+        let mut buf = [0u8; 48];
         let n = drain_aad(aad, &mut buf);
         let auth_key = sp::hkdf_expand8(&rpwd, &[&self.nonce, b"AuthKey"]);
         let export = sp::hkdf_expand8(&rpwd, &[&self.nonce, b"ExportKey"]);
@@ -76,7 +76,7 @@ impl<CS: CipherSuite> Envelope<CS> {
 }
 
 /// concatenate at most 8 parts of associated data (the real callers pass 5)
-fn drain_aad<'a>(aad: impl Iterator<Item = &'a [u8]>, buf: &mut [u8; 32]) -> usize {
+fn drain_aad<'a>(aad: impl Iterator<Item = &'a [u8]>, buf: &mut [u8; 48]) -> usize {
     let mut it = aad;
     let mut n = 0usize;
     let mut parts = 0;
@@ -85,7 +85,7 @@ fn drain_aad<'a>(aad: impl Iterator<Item = &'a [u8]>, buf: &mut [u8; 32]) -> usi
             Some(p) => {
                 let mut i = 0;
                 while i < p.len() {
-                    if n < 32 {
+                    if n < 48 {
                         buf[n] = p[i];
                         n += 1;
                     }
@@ -124,8 +124,8 @@ fn seal_case(has_c: bool, clen: usize, has_s: bool, slen: usize) {
     let rpwd = any_bytes::<8>();
     let spkv = any_u8();
     assume(spkv >= 1 && spkv <= 240);
-    let idc = any_bytes::<2>();
-    let ids = any_bytes::<2>();
+    let idc = any_bytes::<20>();
+    let ids = any_bytes::<9>();
     let mut tape = Tape::symbolic();
     let spk = PublicKey::<G241>::deserialize(&[PK_TAG, spkv]).unwrap();
     unsafe { crate::verif_kani::w_stubs::LAST_RPWD = rpwd };
@@ -151,8 +151,8 @@ fn open_case(has_c: bool, clen: usize, has_s: bool, slen: usize) {
     let rpwd = any_bytes::<8>();
     let spkv = any_u8();
     assume(spkv >= 1 && spkv <= 240);
-    let idc = any_bytes::<2>();
-    let ids = any_bytes::<2>();
+    let idc = any_bytes::<20>();
+    let ids = any_bytes::<9>();
     let envb = any_bytes::<40>();
     let spk = PublicKey::<G241>::deserialize(&[PK_TAG, spkv]).unwrap();
     let env = Envelope::<M>::deserialize(&envb).unwrap();
@@ -293,6 +293,12 @@ harnesses! {
     #[cfg_attr(kani, kani::stub(crate::envelope::build_inner_envelope_internal, crate::envelope::verif_kani_envelope::stub_build_inner))]
     #[cfg_attr(kani, kani::stub(crate::envelope::Envelope::seal_raw, crate::envelope::Envelope::verif_seal_raw_stub))]
     fn s9w_seal_client_only [unwind = 46] { seal_case(true, 1, false, 0); }
+    #[cfg_attr(kani, kani::stub(crate::envelope::build_inner_envelope_internal, crate::envelope::verif_kani_envelope::stub_build_inner))]
+    #[cfg_attr(kani, kani::stub(crate::envelope::Envelope::seal_raw, crate::envelope::Envelope::verif_seal_raw_stub))]
+    fn s9w_seal_long_ids [unwind = 46] { seal_case(true, 20, true, 9); }
+    #[cfg_attr(kani, kani::stub(crate::envelope::recover_keys_internal, crate::envelope::verif_kani_envelope::stub_recover_keys))]
+    #[cfg_attr(kani, kani::stub(crate::envelope::Envelope::open_raw, crate::envelope::Envelope::verif_open_raw_stub))]
+    fn s9w_open_long_ids [unwind = 46] { open_case(true, 20, true, 9); }
     #[cfg_attr(kani, kani::stub(crate::envelope::recover_keys_internal, crate::envelope::verif_kani_envelope::stub_recover_keys))]
     #[cfg_attr(kani, kani::stub(crate::envelope::Envelope::open_raw, crate::envelope::Envelope::verif_open_raw_stub))]
     fn s9w_open_default_ids [unwind = 46] { open_case(false, 0, false, 0); }
